@@ -20,7 +20,8 @@
 (* because a linearization point can always be delayed past invocations).  *)
 (* A history is accepted iff Done is reached for it; Done prints           *)
 (* <<"ACC", id>>.  The abstract data type is a parameter:                  *)
-(*   AbsInit        initial abstract state                                 *)
+(*   AbsInit(p)     initial abstract state (p = index of the reset record,  *)
+(*                  so that whole-history facts can be computed once)       *)
 (*   Step(s, c)     set of successor states if call c (a record with op,   *)
 (*                  a, b, r, v) takes effect atomically in state s and     *)
 (*                  returns (c.r, c.v); {} if that result is impossible    *)
@@ -31,7 +32,7 @@
 (***************************************************************************)
 EXTENDS Naturals, Integers, Sequences, FiniteSets, TLC, Json, IOUtils
 
-CONSTANTS AbsInit, Step(_, _), XStep(_, _), FinalOk(_, _), MaxThread
+CONSTANTS AbsInit(_), Step(_, _), XStep(_, _), FinalOk(_, _), MaxThread
 
 Raw    == TLCEval(ndJsonDeserialize(IOEnv.TRACE))
 Starts == TLCEval({ i \in 1..Len(Raw) : Raw[i].e = "reset" })
@@ -45,7 +46,7 @@ VARIABLES h,      \* index of the reset record of the history being validated
           pend    \* pend[t] = pending call of thread t (NoOp if none)
 vars == <<h, l, abs, pend>>
 
-Init == /\ h \in Starts /\ l = h + 1 /\ abs = AbsInit /\ pend = [t \in Threads |-> NoOp]
+Init == /\ h \in Starts /\ l = h + 1 /\ abs = AbsInit(h) /\ pend = [t \in Threads |-> NoOp]
 
 Ev == Raw[l]
 InRange == l <= EndOf(h)
